@@ -44,6 +44,9 @@ func c16List(tier string) []c16Case {
 	for i := 0; i < tierN(tier, 8, 80); i++ {
 		out = append(out, c16Case{Family: "redial", Index: i, GMP: []int{1, 4, 16}[i%3]})
 	}
+	for i := 0; i < tierN(tier, 12, 120); i++ {
+		out = append(out, c16Case{Family: "refail", Index: i, Rewrite: []string{"reattach-then-old-fails", "write-fault-while-serve-loop-busy", "read-fault-while-serve-loop-busy"}[i%3], GMP: []int{1, 4, 16}[i%3]})
+	}
 	for i := 0; i < tierN(tier, 10, 100); i++ {
 		out = append(out, c16Case{Family: "burst-stream", Index: i})
 		out = append(out, c16Case{Family: "burst-unary", Index: i})
@@ -90,8 +93,134 @@ func c16Run(tier string, seed int64, idx int) *core.Result {
 		c16Burst(tier, seed, idx, c, res)
 	case "redial":
 		c16Redial(tier, seed, idx, c, res)
+	case "refail":
+		c16Refail(tier, seed, idx, c, res)
 	}
 	return res
+}
+
+// c16Refail: delivery to "the peer named by the destination" around connection failures:
+// (a) a peer re-attaches under its name and the superseded connection fails afterwards: envelopes
+// must keep reaching the new connection; (b) a dialled peer's connection fails (write or read
+// fault) while the proxy's serve loop is busy inside the rewriting function: the failure must still
+// be registered, so that later envelopes for that name reach a freshly dialled connection.
+func c16Refail(tier string, seed int64, idx int, c c16Case, res *core.Result) {
+	setGMP(c.GMP)
+	h := bed.NewHooks()
+	h.Install()
+	ctx, cancel := context.WithCancel(context.Background())
+	defer cancel()
+	gates := NewGates()
+	var mu sync.Mutex
+	var dialled []*c16Peer
+	mk := func(name string) *c16Peer {
+		p := &c16Peer{name: name, link: wire.NewLink(1, c.Index%2 == 0)}
+		wire.NewPeer(ctx, p.link.A, func(_ *wire.Peer, in *wire.Rpc) {
+			p.mu.Lock()
+			p.got = append(p.got, proto.Clone(in).(*wire.Rpc))
+			p.mu.Unlock()
+		})
+		return p
+	}
+	px := goat.NewProxy(ctx, "px", func(id string) (goat.RpcReadWriter, error) {
+		p := mk(id)
+		mu.Lock()
+		dialled = append(dialled, p)
+		mu.Unlock()
+		return p.link.B, nil
+	}, func(hd *goatorepo.RequestHeader) error {
+		if hd.Destination == "hold" {
+			gates.Wait("serve-loop")
+			return fmt.Errorf("dropped")
+		}
+		return nil
+	}, nil)
+	a0, b0 := mk("a0"), mk("b")
+	px.AddClient("a0", a0.link.B)
+	go px.Serve()
+	count := func(p *c16Peer) int { p.mu.Lock(); defer p.mu.Unlock(); return len(p.got) }
+	send := func(dst string, n int) bool {
+		e := &wire.Rpc{Id: uint64(n), Header: &goatorepo.RequestHeader{Method: "/x/y", Source: "a0", Destination: dst}, Body: &goatorepo.Body{Data: []byte{byte(n)}}}
+		done := make(chan error, 1)
+		go func() { done <- a0.link.A.Write(ctx, e) }()
+		st, _ := settle(tier, func() bool { return len(done) > 0 })
+		return st == "ok"
+	}
+	arrives := func(p func() *c16Peer, before int, what string) bool {
+		st, snap := settle(tier, func() bool { q := p(); return q != nil && count(q) > before })
+		if st == "stuck" {
+			res.ViolateD("envelope-not-delivered-to-named-peer/"+c.Rewrite, map[string]any{"goat_goroutines": goatParked(snap)}, "%s: the envelope never reaches the peer currently attached / dialable under that name", what)
+			return false
+		}
+		return st == "ok"
+	}
+	switch c.Rewrite {
+	case "reattach-then-old-fails":
+		px.AddClient("b", b0.link.B)
+		send("b", 1)
+		if !arrives(func() *c16Peer { return b0 }, 0, "first envelope to b") {
+			break
+		}
+		b1 := mk("b")
+		px.AddClient("b", b1.link.B) // b re-attaches
+		quiet(tier)
+		b0.link.B.FailRead() // ... and only then the old connection fails
+		quiet(tier)
+		for n := 2; n < 5; n++ {
+			before := count(b1)
+			send("b", n)
+			if !arrives(func() *c16Peer { return b1 }, before, fmt.Sprintf("envelope %d to the re-attached b", n)) {
+				break
+			}
+		}
+		mu.Lock()
+		if len(dialled) > 0 {
+			res.Violate("proxy-dials-although-peer-is-attached", "the proxy dialled %q although a connection was attached under that name", dialled[0].name)
+		}
+		mu.Unlock()
+	default:
+		// "d" is dialled on demand; then its connection faults while the serve loop is held
+		send("d", 1)
+		if !arrives(func() *c16Peer { mu.Lock(); defer mu.Unlock(); if len(dialled) > 0 { return dialled[0] }; return nil }, 0, "first envelope to the dialled peer") {
+			break
+		}
+		mu.Lock()
+		d0 := dialled[0]
+		mu.Unlock()
+		go a0.link.A.Write(ctx, &wire.Rpc{Id: 900, Header: &goatorepo.RequestHeader{Method: "/x/y", Source: "a0", Destination: "hold"}})
+		settle(tier, func() bool { return gates.Reached("serve-loop") })
+		if c.Rewrite == "write-fault-while-serve-loop-busy" {
+			d0.link.B.FailWrite()
+			d0.link.B.FailRead()
+		} else {
+			d0.link.B.FailRead()
+		}
+		quiet(tier)
+		gates.Open("serve-loop")
+		quiet(tier)
+		// the failed connection must be gone: the next envelopes go to a fresh dial
+		for n := 2; n < 5; n++ {
+			send("d", n)
+			quiet(tier)
+		}
+		mu.Lock()
+		nd := len(dialled)
+		var d1 *c16Peer
+		if nd > 1 {
+			d1 = dialled[nd-1]
+		}
+		mu.Unlock()
+		if d1 == nil || count(d1) == 0 {
+			res.Violate("envelopes-lost-after-connection-failure/"+c.Rewrite, "the dialled peer's connection failed while the serve loop was busy; afterwards 3 envelopes for that name were sent but none reached a freshly dialled connection (%d dials in all)", nd)
+		}
+	}
+	res.Stat("refail_cases", 1)
+	gates.OpenAll()
+	cancel()
+	bed.Hygiene(watchdog(tier))
+	bed.Uninstall()
+	h.Fold(res)
+	res.Retire = true
 }
 
 // c16Redial: "dialling that peer on demand" must also hold after a dial that failed: the first
@@ -652,11 +781,11 @@ func init() {
 	core.Register(&core.Prop{
 		ID:    "C16",
 		Level: "exploration",
-		Rule:  "(envelopes) 1..8 attached + 0..4 dialable scripted peers on one proxy, each attached peer sends uniquely numbered envelopes (random bodies, some with status/trailer, earlier ProxyRecord, a ProxyNext route, alias / blocked / unknown destinations) under one of 4 rewriting functions, with a credit scheme keeping <=12 outstanding per destination; per (source, destination) the delivered sequence must equal the sent sequence, proto.Equal modulo ProxyRecord (+ exactly one proxy name), ProxyNext (last hop popped) and the rewritten destination, each peer dialled at most once, proxy.drop never fires. (rpc) the C01 proxy-topology cases and C02 cases forced through client-proxy-demux-serve must pass their own oracles with zero drops. (redial) the first 1..3 dials of a name fail and later ones succeed: envelopes sent after the failure was reported arrive in order through a fresh dial. (burst) server-stream of 50 and 64 concurrent unary calls above the buffer: loss must be exactly accounted for by the drop hook and never a reorder/duplicate. Distinct = case descriptors; all non-trivial.",
+		Rule:  "(envelopes) 1..8 attached + 0..4 dialable scripted peers on one proxy, each attached peer sends uniquely numbered envelopes (random bodies, some with status/trailer, earlier ProxyRecord, a ProxyNext route, alias / blocked / unknown destinations) under one of 4 rewriting functions, with a credit scheme keeping <=12 outstanding per destination; per (source, destination) the delivered sequence must equal the sent sequence, proto.Equal modulo ProxyRecord (+ exactly one proxy name), ProxyNext (last hop popped) and the rewritten destination, each peer dialled at most once, proxy.drop never fires. (rpc) the C01 proxy-topology cases and C02 cases forced through client-proxy-demux-serve must pass their own oracles with zero drops. (redial) the first 1..3 dials of a name fail and later ones succeed: envelopes sent after the failure was reported arrive in order through a fresh dial. (refail) a peer re-attaches and the superseded connection fails afterwards; a dialled peer's connection faults while the serve loop is held in the rewriting function: later envelopes reach the peer currently attached / a fresh dial. (burst) server-stream of 50 and 64 concurrent unary calls above the buffer: loss must be exactly accounted for by the drop hook and never a reorder/duplicate. Distinct = case descriptors; all non-trivial.",
 		Plan:  func(tier string, seed int64) int { return len(c16List(tier)) },
 		Run:   c16Run,
 		RequiredStats: func(string) []string {
-			return []string{"envelopes_delivered_and_compared", "rpc_workload_cases_through_proxy", "burst_streams", "hook:proxy.forward", "redial_cases"}
+			return []string{"envelopes_delivered_and_compared", "rpc_workload_cases_through_proxy", "burst_streams", "hook:proxy.forward", "redial_cases", "refail_cases"}
 		},
 		Assumptions: []string{"bounded families keep at most 12 envelopes outstanding per destination (below the proxy's 16-slot buffer), as the property prescribes"},
 	})
